@@ -627,7 +627,7 @@ def sweep_cases(tier):
 # Omnibus profile: the documented-domain scenarios that the *other* solve-level properties generate (bounds geometry with starts on /
 # outside bounds, scaling, averaging, noise, soft/hard restarts with npt growth, growing variants, regression steps, regularisers,
 # tiny budgets, zero-residual problems). Those checks only count an exception; here it is judged (C07.returns / C07.valid_accepted).
-OMNI_PROFS = [sc.make_prof(reg=0.1, zero_resid=0.1, diag=0.5),
+OMNI_PROFS = [sc.make_prof(reg=0.1, zero_resid=0.1, diag=0.5, nolog=0.1),
               sc.make_prof(bounds=["box", "box", "lower", "upper", "mixed", "scaled", "scaled"], reg=0.1, zero_resid=0.05, regression_bias=0.12,
                            opts_list=[0, 0, 0, 0, 0, 1, 1, 2, 3, 4, 5, 6, 7, 8, 9, 12, 13]),
               sc.make_prof(fams=["lin", "sinlin", "rosen", "hashed", "hashed", "script"], diag=1.0, reg=0.06, zero_resid=0.05,
